@@ -5,10 +5,10 @@ package main
 
 import (
 	"fmt"
-	"os"
-	"sort"
 	"go/token"
 	"go/types"
+	"os"
+	"sort"
 	"strings"
 
 	"golang.org/x/tools/go/ssa"
@@ -279,8 +279,9 @@ func ctorAfter(f *ssa.Function, file ssa.Value, mc *ssa.Call) bool {
 }
 
 // missingColumnsTest recognises the "nothing missing" edge of
-//   x := file.MissingRequiredColumns(); if x != nil { return }      (edge: x == nil)
-//   w := checkForMissingColumns(file); if len(w) > 0 { return }      (edge: !(len(w) > 0))
+//
+//	x := file.MissingRequiredColumns(); if x != nil { return }      (edge: x == nil)
+//	w := checkForMissingColumns(file); if len(w) > 0 { return }      (edge: !(len(w) > 0))
 func missingColumnsTest(ce condEdge, file ssa.Value) *ssa.Call {
 	isMissing := func(v ssa.Value) *ssa.Call {
 		call, ok := v.(*ssa.Call)
@@ -324,6 +325,16 @@ func missingColumnsTest(ce condEdge, file ssa.Value) *ssa.Call {
 func csvSideObligations(c *Ctx) {
 	p := c.P
 	var nextRow *ssa.Function = c.anchor("csv:(*File).NextRow")
+	// the File's fields by role (their names are free): the current row (*row), the header index (map[string]int)
+	curRow, hdrMap := "currentRow", "headerMap"
+	if nextRow != nil {
+		if f := fieldOfType(nextRow.Params[0].Type(), "*csv.row"); f != "" {
+			curRow = f
+		}
+		if f := fieldOfType(nextRow.Params[0].Type(), "map[string]int"); f != "" {
+			hdrMap = f
+		}
+	}
 	var writers []string
 	for _, fn := range p.ModFns {
 		for _, b := range fn.Blocks {
@@ -338,7 +349,7 @@ func csvSideObligations(c *Ctx) {
 				}
 				field := typeName(fa.X.Type()) + "." + fieldName(fa.X.Type(), fa.Field)
 				switch {
-				case field == "csv.File.currentRow" && fn != nextRow:
+				case field == "csv.File."+curRow && fn != nextRow && !(nextRow != nil && inRegion(c, nextRow, fn)):
 					writers = append(writers, shortName(fn))
 				case strings.HasPrefix(field, "csv.Reader.") && typeName(fa.X.Type()) == "csv.Reader" && namedOf(fa.X.Type()).Obj().Pkg().Path() == "encoding/csv":
 					if fieldName(fa.X.Type(), fa.Field) != "ReuseRecord" {
@@ -371,7 +382,7 @@ func csvSideObligations(c *Ctx) {
 				}
 			}
 			seen = true
-			if _, has := st["NNC:"+nextRow.Params[0].Name()+".currentRow"]; !has {
+			if _, has := st["NNC:"+nextRow.Params[0].Name()+"."+curRow]; !has {
 				ok = false
 			}
 		})
@@ -393,7 +404,7 @@ func csvSideObligations(c *Ctx) {
 					continue
 				}
 				fa, isFA := st.Addr.(*ssa.FieldAddr)
-				if !isFA || fieldName(fa.X.Type(), fa.Field) != "i" {
+				if !isFA || fieldName(fa.X.Type(), fa.Field) != fieldOfType(fa.X.Type(), "int") || !strings.HasSuffix(typeName(fa.X.Type()), "Column") {
 					continue
 				}
 				n++
@@ -415,7 +426,7 @@ func csvSideObligations(c *Ctx) {
 						continue
 					}
 					lk, isLk := ex.Tuple.(*ssa.Lookup)
-					if !isLk || !strings.HasSuffix(canon(lk.X), ".headerMap)") || lk.Index != ssa.Value(f.Params[1]) {
+					if !isLk || !strings.HasSuffix(canon(lk.X), "."+hdrMap+")") || lk.Index != ssa.Value(f.Params[1]) {
 						ok, why = false, "index is not headerMap[name]"
 					}
 				}
@@ -424,31 +435,57 @@ func csvSideObligations(c *Ctx) {
 		c.Check(ok && n > 0, "CSV", shortName(f), "column index is headerMap[name] or -1", p.pos(f.Pos()), "the i field is only ever headerMap[name] (or -1 when absent)", "column index has another source: "+why)
 	}
 	if f := c.anchor("csv:New"); f != nil {
-		// headerMap[colHeader] = i with i the range index over the first record, which is the reader's first Read()
-		ok := false
-		for _, b := range f.Blocks {
-			for _, in := range b.Instrs {
-				mu, isMU := in.(*ssa.MapUpdate)
-				if !isMU {
-					continue
+		// headerMap[colHeader] = i with i the index of a scan over the first record, which is the reader's first Read();
+		// the loop may live in New or in a helper New hands the record to
+		ok, n := true, 0
+		var isFirstRecord func(v ssa.Value, d int) bool
+		isFirstRecord = func(v ssa.Value, d int) bool {
+			if d > 3 {
+				return false
+			}
+			switch x := v.(type) {
+			case *ssa.Extract:
+				call, isCall := x.Tuple.(*ssa.Call)
+				return isCall && calleeName(call) == "(*encoding/csv.Reader).Read" && inRegion(c, f, call.Parent())
+			case *ssa.Parameter:
+				callers := p.Callers(x.Parent())
+				idx := paramIndex(x)
+				if len(callers) == 0 || idx < 0 {
+					return false
 				}
-				ld, isLd := mu.Key.(*ssa.UnOp)
-				if !isLd {
-					continue
+				for _, e := range callers {
+					args := e.Site.Common().Args
+					if idx >= len(args) || !isFirstRecord(args[idx], d+1) {
+						return false
+					}
 				}
-				ia, isIA := ld.X.(*ssa.IndexAddr)
-				if !isIA || ia.Index != mu.Value {
-					continue
-				}
-				if r, _ := isRangeIndexOver(ia.Index, ia.X); r {
-					if ex, isEx := ia.X.(*ssa.Extract); isEx {
-						if call, isCall := ex.Tuple.(*ssa.Call); isCall && calleeName(call) == "(*encoding/csv.Reader).Read" {
-							ok = true
+				return true
+			}
+			return false
+		}
+		for _, g := range c.regionOf(f) {
+			for _, b := range g.Blocks {
+				for _, in := range b.Instrs {
+					mu, isMU := in.(*ssa.MapUpdate)
+					if !isMU || shortType(mu.Map.Type()) != "map[string]int" {
+						continue
+					}
+					n++
+					good := false
+					if ld, isLd := mu.Key.(*ssa.UnOp); isLd {
+						if ia, isIA := ld.X.(*ssa.IndexAddr); isIA && ia.Index == mu.Value {
+							if r, _ := isRangeIndexOver(ia.Index, ia.X); r && isFirstRecord(ia.X, 0) {
+								good = true
+							}
 						}
+					}
+					if !good {
+						ok = false
 					}
 				}
 			}
 		}
+		ok = ok && n > 0
 		c.Check(ok, "CSV", shortName(f), "headerMap maps each header to its position in the first record", p.pos(f.Pos()), "headerMap[firstRow[i]] = i for the range index i over the first record", "headerMap is not filled with the position of each header cell in the first record")
 	}
 }
